@@ -166,6 +166,37 @@ def run_ops(ctx: _Ctx, ops: list) -> list:
                 o["parts"] = [{"code": code, "meta": list(meta)} for code, meta in zip(r.rzil, r.meta)]
                 o["needs_hi"] = [bool(x) for x in r.needs_hi]
                 o["needs_pkt"] = [bool(x) for x in r.needs_pkt]
+            elif kind == "fresh" and op.get("thread"):
+                # transform on a worker thread, read the attributes on the main thread
+                import threading
+                params = [
+                    Parameter("pkt", get_value_type_by_c_type("HexPkt")),
+                    Parameter("hi", get_value_type_by_c_type("HexInsn")),
+                    Parameter("bundle", get_value_type_by_c_type("HexInsnPktBundle")),
+                ]
+                t = ctx.RZILTransformer(
+                    ctx.ArchEnum.HEXAGON,
+                    sub_routines=c.sub_routines,
+                    parameters=params,
+                    return_type=get_value_type_by_c_type("RzILOpEffect"),
+                    code_format=ctx.CodeFormat[op.get("fmt", c.code_format.name)],
+                    macros=c.transformer.macros,
+                )
+                o["fmt"] = op.get("fmt", c.code_format.name)
+                box = {}
+                tree_ = ctx.tree(op["code"])
+
+                def work():
+                    try:
+                        box["code"] = t.transform(tree_)
+                    except BaseException as e_:  # noqa: BLE001
+                        box["exc"] = e_
+                th = threading.Thread(target=work)
+                th.start()
+                th.join()
+                if "exc" in box:
+                    raise box["exc"]
+                o["parts"] = [{"code": box["code"], "meta": _meta_of(t)}]
             elif kind == "fresh":
                 params = [
                     Parameter("pkt", get_value_type_by_c_type("HexPkt")),
